@@ -534,7 +534,7 @@ func (em *emitter) prepareFunctionBodyParameters(fn *ast.Func) {
 
 	// Rebind input parameters that should be declared as indirect.
 	for i, param := range fn.Type.Parameters {
-		if em.varStore.mustBeDeclaredAsIndirect(param.Ident) {
+		if param.Ident != nil && em.varStore.mustBeDeclaredAsIndirect(param.Ident) {
 			// reg is used only to read input parameters; after copying values
 			// into the indirect register it is not used anymore.
 			// In this way, the caller of fn should not care if the input
